@@ -232,10 +232,13 @@ def conclude(mod, pid, tier, seed, nshards, results, wall):
             vlines.append(f"VIOLATION property={pid} replay={path}")
     # required label distribution (vacuity guard)
     req = getattr(mod, "REQUIRED_LABELS", {})
-    if evaluations >= 200 and not herrs:
+    # fractions are taken over the GENERATED (Hypothesis) cases: enumerated sub-spaces and regress replays have a fixed
+    # composition and, in the thorough tier, can outnumber the generated cases many times
+    gen_total = sum(r["generated"] for r in results)
+    if gen_total >= 200 and not herrs:
         for lab, frac in req.items():
-            if labels.get(lab, 0) < frac * evaluations:
-                herrs.append(f"generator vacuity guard: label {lab!r} seen {labels.get(lab, 0)} times in {evaluations} evaluations (< {frac:.1%})")
+            if labels.get(lab, 0) < frac * gen_total:
+                herrs.append(f"generator vacuity guard: label {lab!r} seen {labels.get(lab, 0)} times in {gen_total} generated cases (< {frac:.1%})")
     if len(nontrivial) < 2 and not herrs and not uniq:
         herrs.append(f"only {len(nontrivial)} distinct non-trivial cases: check is vacuous")
     ev = {
